@@ -26,6 +26,22 @@ struct TapeSched
     int64_t low_water = -1;
     uint64_t fairness = 2000;
     uint64_t preemptions = 0;
+    // fine profile: with probability edge_prob/256 per step the stepped fiber is preempted after
+    // 1..edge_span basic-block edges (a pure function of edge_seed and the step index)
+    uint64_t edge_seed = 0;
+    unsigned edge_prob = 0, edge_span = 64;
+    uint64_t edge_budget_for_step()
+    {
+        if (!edge_prob)
+            return 0;
+        uint64_t h = (edge_seed ^ (steps * 0x9e3779b97f4a7c15ull));
+        h ^= h >> 31;
+        h *= 0xbf58476d1ce4e5b9ull;
+        h ^= h >> 29;
+        if ((h & 255) >= edge_prob)
+            return 0;
+        return 1 + (h >> 8) % edge_span;
+    }
 
     int64_t prio_of(int f)
     {
@@ -127,7 +143,9 @@ run(TapeSched& s, uint64_t max_steps, Done done, int* blocked_out = nullptr)
             return RUN_QUIET;
         }
         int f = s.pick(runnable);
+        set_edge_budget(s.edge_budget_for_step());
         step(f);
+        set_edge_budget(0);
         if (++n > max_steps)
             return RUN_STEPLIMIT;
     }
